@@ -129,6 +129,11 @@ func (dps *DefaultPathStrategy) GetRequestInfo(urlCtx base.UrlContext, rootOutPa
 		ri.FileNameWithPath = filepath.Join(rootOutPath, ri.StreamName, filename)
 	}
 
+	// 比如 /hls/...m3u8 或 /hls/..-1-2.ts 解析出的流名称是".."，拼接后的路径在rootOutPath之外
+	if ri.StreamName != "" && !base.IsStreamNameSafeAsPathItem(ri.StreamName) {
+		return RequestInfo{}
+	}
+
 	return
 }
 
